@@ -239,6 +239,7 @@ def units(tier):
     U += comparator_units()
     U += cache_units()
     U += relax_units()
+    U += bfs_units(tier)
     return U
 
 
@@ -454,6 +455,79 @@ __CPROVER_assigns(g_data[@nb@], is_this_cell_considered[@nb@], g_pushed[0], g_np
         U.append(Unit(nm, "C13", [fn], enforce="relax_step", globals_=G, inputs=["in_nb", "in_cur", "g_data", "is_this_cell_considered"], runs=[Run(backend="z3", timeout=300)], replay=replay_by_native_search,
                       harness="int main(void) {\n  size_t in_nb = nondet_size(), in_cur = nondet_size(); g_npush = 0;\n  relax_step(in_nb, in_cur);\n  __CPROVER_assert(0, \"VP_REACH\");\n  return 0;\n}\n",
                       desc=f"{cls}::{fname}, relaxation step (innermost loop body): the {'coface' if up else 'face'} takes the {'larger' if up else 'smaller'} of the two values, the current cell keeps its value, the {'coface' if up else 'face'} is marked as reached and queued for the next round exactly when it was not marked before"))
+    return U
+
+def bfs_units(tier):
+    """The two breadth-first value propagations as whole functions on concrete small shapes (route B): base class,
+    impose_lower_star_filtration (top cells -> faces, minimum; this is the default construction path) and periodic class,
+    impose_lower_star_filtration_from_vertices (vertices -> cofaces, maximum).  The real get_boundary_of_a_cell /
+    get_coboundary_of_a_cell are called; the iterator loop that seeds the worklist is a stub (iterator units)."""
+    U = []
+    base_shapes = [((2,), None), ((2, 1), None)] + ([((1, 1, 1), None), ((3, 2), None)] if tier == "thorough" else [])
+    per_shapes = [((3,), (True,)), ((2, 2), (True, False))] + ([((1, 1, 1), (True, False, True)), ((2, 1, 1), (True, False, False)), ((2, 2), (True, True))] if tier == "thorough" else [])
+    for up, shapes in ((False, base_shapes), (True, per_shapes)):
+        for shape, mask in shapes:
+            ncell = 1
+            for k, sd in enumerate(shape):
+                ncell *= 2 * sd + (0 if (mask and mask[k]) else 1)
+            defs = shape_defs(shape, mask) + [f"NCELL={ncell}"]
+            F = fns(up)
+            G = GHOST + """
+double g_vals[NCELL];
+typedef struct { size_t a[NCELL]; size_t n; } vp_vec_wl;
+#define VP_SWAP_WL(x, y) do { vp_vec_wl vp_t = (x); (x) = (y); (y) = vp_t; } while (0)
+/* a is a face of b of any codimension (a == b included): per direction equal coordinates, or b has length there and a is one of its two ends */
+static bool x_leq(size_t a, size_t b) {
+  bool ok = true;
+  for (unsigned i = 0; i < DMAX; i++) if (i < D) { unsigned ca = x_coord(a, i), cb = x_coord(b, i);
+    ok = ok && (ca == cb || (cb % 2 == 1 && (ca + 1 == cb || ca == (cb + 1) % X_L(i)))); }
+  return ok;
+}
+static bool x_is_seed(size_t c) { return x_dim(c) == (SEED_TOP ? D : 0); }
+/* stub of the seeding loop `for (it = <cells>_iterator_begin(); it != ..._end(); ++it) push_back(it.compute_index_in_bitmap())` */
+static void vp_seed(vp_vec_wl* w) { for (size_t c = 0; c < NCELL; c++) if (c < X_SIZE && x_is_seed(c)) { w->a[w->n] = c; w->n++; } }
+static double x_expected(size_t cell) {
+  double best = 0; bool first = true;
+  for (size_t t = 0; t < NCELL; t++) if (t < X_SIZE && x_is_seed(t) && (SEED_TOP ? x_leq(cell, t) : x_leq(t, cell))) {
+    if (first || (SEED_TOP ? g_seedv[t] < best : best < g_seedv[t])) best = g_seedv[t]; first = false; }
+  return best;
+}
+static bool vals_ok(void) { bool ok = data.a == g_vals && X_SIZE == NCELL;
+  for (size_t c = 0; c < NCELL; c++) ok = ok && (x_is_seed(c) ? (!isnan(g_vals[c]) && g_vals[c] == g_seedv[c]) : (isinf(g_vals[c]) && (SEED_TOP ? g_vals[c] > 0 : g_vals[c] < 0)));
+  return ok; }
+""".replace("double g_vals[NCELL];", "double g_vals[NCELL]; double g_seedv[NCELL];")
+            cls, path = (CLS_P, PB) if up else (CLS_B, B)
+            fname = "impose_lower_star_filtration_from_vertices" if up else "impose_lower_star_filtration"
+            extra = [(r"std::vector<bool> (\w+)\(data\.n, false\);", r"bool \1[NCELL]; for (size_t vp_z = 0; vp_z < NCELL; vp_z++) \1[vp_z] = false;"),
+                     (r"\bvp_vec_sz ((?:new_)?indices_to_consider);", r"vp_vec_wl \1;"),
+                     (r"for \(auto (\w+) = \w+_iterator_begin\(\);\s*\1 != \w+_iterator_end\(\); \+\+\1\) \{\s*VP_PUSH\((\w+), \1\.compute_index_in_bitmap\(\)\);\s*\}", r"vp_seed(&\2);"),
+                     (r"\b((?:new_)?indices_to_consider)\.size\(\)", r"\1.n"),
+                     (r"for \(auto (\w+) : (\w+)\) \{", r"for (size_t vp_k_\1 = 0; vp_k_\1 < \2.n; vp_k_\1++) { size_t \1 = \2.a[vp_k_\1];"),
+                     (r"(\w+)\.swap\((\w+)\);", r"VP_SWAP_WL(\1, \2);")]
+            f_bfs = Fn(path, rf"void {cls}<T>::{fname}\(\)", fname, """
+__CPROVER_requires(shape_ok() && vals_ok() && g_probe < X_SIZE)
+__CPROVER_ensures(g_vals[g_probe] == x_expected(g_probe))
+__CPROVER_assigns(g_vals)
+""", scopes=[cls], sig_subs=SIG_SUBS, subs=vec_subs(extra), canary=(r"(if \(data\.a\[\w+\]) [<>] (data\.a\[\w+\]\))", r"\1 == \2"))
+            nm = ("per." if up else "base.") + shape_name(shape, mask)
+            nbfn = F["get_coboundary_of_a_cell"] if up else F["get_boundary_of_a_cell"]
+            harness = HARNESS_SETUP + """double nondet_double(void);
+int main(void) {
+  setup();
+  data.a = g_vals;
+  for (size_t c = 0; c < NCELL; c++) { g_seedv[c] = nondet_double(); g_vals[c] = nondet_double(); }
+  g_probe = nondet_size();
+  """ + fname + """();
+  __CPROVER_assert(0, "VP_REACH");
+  return 0;
+}
+"""
+            U.append(Unit(f"{nm}.{fname}.whole", "C13", [F["set_up_containers"], F["compute_counter_for_given_cell"], nbfn, f_bfs],
+                          enforce=fname, includes=["c13_glue.h"], defines=defs + [f"SEED_TOP={0 if up else 1}"], route="B",
+                          bound=f"grid shape {shape_name(shape, mask)}; every cell (ghost probe) and all non-NaN {'vertex' if up else 'top-cell'} values symbolic",
+                          unwind=ncell + 2, globals_=G, object_bits=10, inputs=["g_probe", "g_seedv"], harness=harness,
+                          runs=[Run(backend="kissat", timeout=1500)], replay=replay_by_native_search,
+                          desc=f"{fname} as a whole on shape {shape_name(shape, mask)} (worklist rounds, real {'get_coboundary_of_a_cell' if up else 'get_boundary_of_a_cell'}): each cell ends with the {'maximum over its vertices' if up else 'minimum over the top-dimensional cells containing it'}; {'vertex' if up else 'top-cell'} values are kept"))
     return U
 
 NATIVE_RESULTS = []
